@@ -20,6 +20,7 @@ EXPLANATION = ("Provenance and table rules over SupervisedSimulation: each row-t
                "in every interaction; label types map r->L1Reward, m->HammingReward, c->BinaryReward; take becomes "
                "Reservoir(take) joined before LabelRows.")
 EXPLANATION += ' R7: Jaccard denominator/numerator and list-only unwrapping; R8: LibSVM yields every labelled line; R9: label read and label drop use the same key domain.'
+EXPLANATION += " R10: Reservoir draws from a generator created per read; CategoricalEncoder's level list is duplicate-free."
 
 SUP = "coba/environments/supervised.py"
 
